@@ -6,6 +6,7 @@ package app
 // Node) on the wire-level fakes of internal/verifsim, inside testing/synctest.
 
 import (
+	"runtime/debug"
 	"bytes"
 	"context"
 	"encoding/json"
@@ -407,7 +408,7 @@ func (s *vSim) tickBody(in *vInst) (final appState) {
 		if r := recover(); r != nil {
 			buf := make([]byte, 4096)
 			buf = buf[:runtime.Stack(buf, false)]
-			in.panics = append(in.panics, fmt.Sprint(r))
+			in.panics = append(in.panics, fmt.Sprint(r)+vPanicSite())
 			s.appEv(host, "Panic", string(app.state), fmt.Sprintf("%v\n%s", r, buf))
 			final = "PANIC"
 		}
@@ -441,7 +442,7 @@ func (s *vSim) health(host string) {
 	}
 	defer func() {
 		if r := recover(); r != nil {
-			in.panics = append(in.panics, fmt.Sprint(r))
+			in.panics = append(in.panics, fmt.Sprint(r)+vPanicSite())
 			s.appEv(host, "Panic", "healthChecker", fmt.Sprint(r))
 		}
 	}()
@@ -461,7 +462,7 @@ func (s *vSim) recovery(host string) {
 	}
 	defer func() {
 		if r := recover(); r != nil {
-			in.panics = append(in.panics, fmt.Sprint(r))
+			in.panics = append(in.panics, fmt.Sprint(r)+vPanicSite())
 			s.appEv(host, "Panic", "recoveryChecker", fmt.Sprint(r))
 		}
 	}()
@@ -620,3 +621,22 @@ func (s *vSim) dumpTrace(path string) {
 }
 
 var _ = nodestate.NodeState{}
+
+
+// vPanicSite names the innermost frames of mysync's own code on the panicking stack.
+func vPanicSite() string {
+	var sites []string
+	for _, ln := range strings.Split(string(debug.Stack()), "\n") {
+		ln = strings.TrimSpace(ln)
+		if strings.HasPrefix(ln, "/repo/internal/") && !strings.Contains(ln, "zzverif_") {
+			if i := strings.IndexByte(ln, ' '); i > 0 {
+				ln = ln[:i]
+			}
+			sites = append(sites, strings.TrimPrefix(ln, "/repo/"))
+			if len(sites) == 3 {
+				break
+			}
+		}
+	}
+	return " @ " + strings.Join(sites, " < ")
+}
